@@ -119,12 +119,24 @@ CLAIMED["C10"] = {
     "design_ref": "DESIGN.md §5 C10",
 }
 
+CLAIMED["C08"] = {
+    "text": "Facets of well-formedness proved on the real code for all inputs (Verus): LinearizationContext::extract_coeffs returns exactly one coefficient per variable of the model's variable list, in that order, each the coefficient "
+            "stored in the linear form or 0 and all finite when the form is finite; declaring an auxiliary keeps the domain's key set well-formed; queued constraints are finite (c_fin is a precondition of add_constraint and is discharged at every call site in the proved arms); "
+            "every proved arm of Exp::linearize returns a finite linear form or an error, and the exact Abs lowering returns the missing-bounds error instead of a constant when the operand's range is not finite. "
+            "The row-name de-duplication loop of Linearizer::linearize (a statement slice lifted verbatim from the function) is proved to leave non-empty names pairwise distinct, to keep the first use of every user-written name, to keep unnamed rows unnamed and to give a renamed row a name no user wrote. "
+            "Sortedness / key-set equality of the variable list, presence of every referenced variable, one finite coefficient per variable and the missing-bounds error are additionally checked on the whole real Linearizer::linearize by a BOUNDED search over a family of models (labelled, not counted as proved). "
+            "NOT decided deductively: the used-variable collection and sort (iterator chains), auxiliary-name collision freedom (names are format! strings abstracted to opaque values by rule R6), the min/max and logic arms, termination of the name search.",
+    "note": "Trusted: prelude/f64_layer.rs, prelude/smap.rs, prelude/std_stubs.rs. Assumed contract: BoundsAnalyzer::bounds_of (U07.fwd).",
+    "technique": "Verus contracts on extracted extract_coeffs / add_constraint / declare_variable / Exp::linearize arms (finite-or-error postcondition) and loop invariants on the name de-duplication slice of Linearizer::linearize; bounded executable-postcondition search on the whole function",
+    "design_ref": "DESIGN.md §5 C08",
+}
+
 NOT_APPLICABLE = {
     "C03": "quantifies over source texts through the pest-generated parser and an external MILP search; every in-repo step that can carry a contract is covered by C01/C02/C04/C05; no further function exists to attach an obligation to",
     "C06": "relates two parses; the expansion engine works on parser IL with dyn Fn callbacks, scope frames and evaluated iterables that Verus does not accept and Kani cannot execute; its specification would be a formal semantics of the whole language",
     "C09": "the operator table is data handed to pest's PrattParser and tokens come from macro-generated grammar code; neither verifier can take that code, and assuming the library implements precedence climbing would assume the property",
     "C17": "the export is text read by an independent reader; a contract would need a formal LP-format reader and a string theory for format!/push_str output; Kani cannot execute float formatting",
     "C20": "sensitivities are computed inside clarabel/good_lp; rooc only forwards them by name, so no contract on repository code decides the sign convention",
-    "C08": PENDING, "C11": PENDING, "C12": PENDING,
+    "C11": PENDING, "C12": PENDING,
      "C16": PENDING, 
 }
